@@ -138,6 +138,14 @@ fn iter_h<T: 'static>(mutable: bool) {
         kani::assert(it.size_hint() == (e - i, Some(e - i)) && it.len() == e - i, "size_hint() == (len(), Some(len())) == items still to come");
         let c = it.clone();
         kani::assert(c.index == i && c.end == e, "clone copies both cursors");
+        {
+            // the other way to clone: into an existing iterator in a different state
+            let mut c2 = it.clone();
+            c2.index = 0;
+            c2.end = len;
+            c2.clone_from(&it);
+            kani::assert(c2.index == i && c2.end == e, "clone_from copies both cursors");
+        }
         let r = if back { it.next_back() } else { it.next() };
         kani::assert(c.index == i && c.end == e, "advancing the original leaves the clone alone");
         kani::assert(r.is_some() == (i < e), "next/next_back is None exactly when the cursors meet");
